@@ -1,6 +1,6 @@
 From Coq Require Import Extraction ExtrOcamlBasic ZArith List.
-From LP Require Import Num C06_Model.
+From LP Require Import Num C06_Model C06_Model2.
 Extraction Language OCaml.
 Extraction "C06_m.ml" fact_init factorial_step factorial_run binomial_step binomial gammaln gamma
   find_epsilon asr integrate panel_loop gammaq_int gammap_ser gammaq_cf gammaq gammap
-  upper_incomplete_gamma lower_incomplete_gamma inv_gammap inv_gammaq call_step call_fresh call_run Z.of_nat Z.to_nat.
+  upper_incomplete_gamma lower_incomplete_gamma inv_gammap inv_gammaq asr_w integrate_w panel_loop_w gammaq_int_w call_step call_fresh call_run Z.of_nat Z.to_nat.
